@@ -925,6 +925,9 @@ def _replay_csq(d, kind, clause, model, seed):
 
 
 UNITS = [CondGr(), CondSq()]
+# callee contracts of other properties used at call sites: their units are re-verified with this check
+from contracts.common import callee_units as _callee_units   # noqa: E402
+UNITS = UNITS + _callee_units([('C02', None)], UNITS)
 
 MANIFEST = {
     "text": "conditional_gr and conditional_sq (real ASTs, re-read every run; one configuration, symbolic particle number N, symbolic cell "
